@@ -84,11 +84,12 @@ void crash_line(const char* cls, const void* addr)
 
 void on_segv(int sig, siginfo_t* si, void*)
 {
-    if (sim::g_read_phase)
+    const auto* a = static_cast<const unsigned char*>(si->si_addr);
+    const bool obj = sim::g_read_phase && sim::g_obj_pages && a >= sim::g_obj_pages && a < sim::g_obj_pages + sim::PAGE;
+    if (sim::g_read_phase && (obj || sim::in_shared_block(si->si_addr)))
     {
         // C19: a const operation (or an operation on a private copy) wrote to write-protected shared state
-        const auto* a = static_cast<const unsigned char*>(si->si_addr);
-        const bool obj = sim::g_obj_pages && a >= sim::g_obj_pages && a < sim::g_obj_pages + sim::PAGE;
+        // (reads of these pages are permitted, so the fault is a write; faults on guard pages fall through)
         char detail[200];
         detail[0] = 0;
         if (!obj) sim::g_heap.classify(si->si_addr, detail, sizeof(detail));
